@@ -277,6 +277,14 @@ pub trait Check: Sync {
 // ---------------------------------------------------------------------------
 // Panic capture
 // ---------------------------------------------------------------------------
+static PANIC_SIDE_FILE: std::sync::OnceLock<PathBuf> = std::sync::OnceLock::new();
+
+/// every panic text is also written to this file (overwritten each time), so that the
+/// coordinator can attribute a worker that dies in a double panic / abort
+pub fn set_panic_side_file(p: PathBuf) {
+    let _ = PANIC_SIDE_FILE.set(p);
+}
+
 thread_local! {
     static LAST_PANIC: RefCell<Option<String>> = const { RefCell::new(None) };
     static QUIET_PANICS: RefCell<bool> = const { RefCell::new(true) };
@@ -299,6 +307,12 @@ pub fn install_panic_hook() {
         let quiet = QUIET_PANICS.with(|q| *q.borrow());
         if !quiet {
             eprintln!("[panic] {text}");
+        }
+        if let Some(f) = PANIC_SIDE_FILE.get() {
+            // keep the previous panic as well: an abort is preceded by the runtime's own
+            // "panic in a destructor during cleanup"
+            let prev = LAST_PANIC.with(|p| p.borrow().clone()).unwrap_or_default();
+            let _ = std::fs::write(f, format!("{}\n{}", prev.replace('\n', " "), text.replace('\n', " ")));
         }
         LAST_PANIC.with(|p| *p.borrow_mut() = Some(text));
     }));
@@ -350,6 +364,16 @@ pub struct Known {
     pub property: String,
     pub sig: String,
     pub what: String,
+}
+
+/// `pattern` equals `sig`, or matches it field by field (fields separated by `|`) where a
+/// pattern field `*` matches any single field
+pub fn sig_matches(pattern: &str, sig: &str) -> bool {
+    if pattern == sig {
+        return true;
+    }
+    let (p, s): (Vec<&str>, Vec<&str>) = (pattern.split('|').collect(), sig.split('|').collect());
+    p.len() == s.len() && p.iter().zip(s.iter()).all(|(a, b)| *a == "*" || a == b)
 }
 
 pub fn load_known() -> Vec<Known> {
@@ -418,6 +442,9 @@ pub fn run_worker(check: &dyn Check, a: &WorkerArgs) -> Ctx {
     let start = Instant::now();
     let budget = Duration::from_secs(a.budget_s);
     let cur_path = a.out.with_extension("cur");
+    if a.only_case.is_none() && check.panic_is_violation() {
+        set_panic_side_file(a.out.with_extension("lastpanic"));
+    }
     let cases: Box<dyn Iterator<Item = u64>> = match a.only_case {
         Some(c) => Box::new(std::iter::once(c)),
         None => Box::new((a.shard..total).step_by(a.of as usize)),
@@ -592,6 +619,16 @@ pub fn coordinator(check: &dyn Check, a: &RunArgs) -> i32 {
                         .rev()
                         .collect::<Vec<_>>()
                         .join("\n");
+                    let lastpanic = std::fs::read_to_string(out.with_extension("lastpanic")).ok();
+                    let _ = std::fs::remove_file(out.with_extension("lastpanic"));
+                    let tail = match &lastpanic {
+                        Some(p) => {
+                            // newest last; skip the runtime's own abort message
+                            let pick = p.lines().rev().find(|l| !l.trim().is_empty() && !l.contains("panicking.rs")).unwrap_or("");
+                            format!("last panic before death: {pick}\n{tail}")
+                        }
+                        None => tail,
+                    };
                     match case {
                         Some(c) => {
                             crashes.push((c, format!("worker {i} died with {s} while running case {c}; stderr tail:\n{tail}")));
@@ -669,12 +706,11 @@ pub fn coordinator(check: &dyn Check, a: &RunArgs) -> i32 {
     // crashes of a worker process
     for (case, what) in crashes {
         if check.panic_is_violation() {
-            violations.push(Violation {
-                sig: "crash|worker-died".to_string(),
-                what,
-                case,
-                detail: J::Null,
-            });
+            let sig = match what.split("last panic before death: ").nth(1) {
+                Some(rest) => format!("crash|worker-died|{}", panic_sig(rest.lines().next().unwrap_or(""))),
+                None => "crash|worker-died".to_string(),
+            };
+            violations.push(Violation { sig, what, case, detail: J::Null });
         } else {
             inconclusive.push(what);
         }
@@ -686,7 +722,7 @@ pub fn coordinator(check: &dyn Check, a: &RunArgs) -> i32 {
     for v in violations {
         if let Some(k) = known
             .iter()
-            .find(|k| k.status == "known" && k.property == id && k.sig == v.sig)
+            .find(|k| k.status == "known" && k.property == id && sig_matches(&k.sig, &v.sig))
         {
             let e = known_hit
                 .entry(k.sig.clone())
